@@ -4,7 +4,7 @@ xmlschema.limits is module-level state and deep documents may exhaust the Python
 is exercised in a process of its own.  The process sets the limits through the public module `xmlschema.limits`,
 builds the documents, calls the public API and prints one JSON line per call; the parent applies the oracle.
 
-config: {"depth": int|null, "elements": int|null, "shape": "chain"|"flat"|"chain-any",
+config: {"depth": int|null, "elements": int|null, "shape": "chain"|"flat"|"chain-any"|"groups-prefix"|"groups-default",
          "sizes": [n, ...], "modes": ["eager","lazy"], "apis": [...], "versions": ["1.0","1.1"]}
      or {"setter": [values...]}   only exercise the limit setters
      or {"gcphase": K}            every phase 0..K-1 of the cyclic collector between a failed lazy parse and the
@@ -25,12 +25,20 @@ SCHEMAS = {
                 'maxOccurs="unbounded"><xs:complexType/></xs:element></xs:sequence></xs:complexType></xs:element>'
                 '</xs:schema>',
 }
+# wide and shallow: n groups <g><b/><b LAST-CHILD-DECLARES-A-NAMESPACE/></g> under the root, depth 3, 1 + 3n elements
+SCHEMAS['groups-prefix'] = SCHEMAS['groups-default'] = (
+    H + '<xs:element name="a"><xs:complexType><xs:sequence><xs:element name="g" minOccurs="0" maxOccurs="unbounded">'
+        '<xs:complexType><xs:sequence><xs:element name="b" maxOccurs="unbounded"><xs:complexType/></xs:element>'
+        '</xs:sequence></xs:complexType></xs:element></xs:sequence></xs:complexType></xs:element></xs:schema>')
 
 
 def document(shape, n):
     """A valid document with exactly n elements; 'chain*': nesting depth n, 'flat': depth min(n, 2)."""
     if shape.startswith('chain'):
         return '<a>' * (n - 1) + '<a/>' + '</a>' * (n - 1)
+    if shape.startswith('groups'):
+        last = '<b xmlns:p="urn:p"/>' if shape == 'groups-prefix' else '<b xmlns=""/>'
+        return '<a>' + ('<g><b/>' + last + '</g>') * n + '</a>'
     return '<a>' + '<b/>' * (n - 1) + '</a>' if n > 1 else '<a/>'
 
 
